@@ -207,6 +207,9 @@ def run(tier: str, seed: int) -> int:
     cases = chk.generate("Gen_C14")
     obs = drive("harness.props.c14", "drive_case", cases, chunk=50)
     verdicts = chk.judge("Judge_C14", obs)
+    from .. import corrupt as _corrupt
+
+    chk.binding_selftest("Judge_C14", obs, verdicts, _corrupt.c14)
     by_id = {o["id"]: _pretty(o) for o in obs}
     chk.absorb(verdicts, by_id, {c["id"]: c for c in cases})
     nontrivial = sum(1 for c in cases if len(c["operands"]) >= 2)
